@@ -61,7 +61,7 @@ COSIM_RULE = ("lock-step co-simulation: real *Raft nodes (real raft.go, real fil
 COSIM_ASSUME = ["each lock-held section of raft.go is atomic (mutex discipline: C20, not checked)",
                 "observations are taken when every goroutine of the library is blocked (quiescence read from runtime.Stack)",
                 "virtual time: timestamps are shifted in units of one hour; real timers never fire",
-                "FSM calls (Apply/Snapshot/Restore) are atomic in the co-simulation; snapshots are triggered by the harness"]
+                "FSM calls (Apply of a replicated operation, Snapshot, Restore) are atomic in the co-simulation - the library excludes them from one another (fsmBusy, fix D8/D9; checked by the fsmrace driver of C10); a read-only Apply may still overlap a Restore; snapshots are triggered by the harness"]
 
 _SAFETY_EXCL = ("lease", "ro", "sv", "Read")
 
@@ -91,9 +91,17 @@ GRPC_RULE = (" PLUS grpcsnap: three real nodes over the library's own gRPC trans
              "84 B, 100 KiB and 5 MiB (above gRPC's default message limit)")
 
 
-def cosim_plan(exclude=(), handlers=None, d3=False, grpc=False):
+FSMRACE_RULE = (" PLUS fsmrace: real nodes with a state machine whose Apply/Snapshot/Restore calls are held at their first "
+                "instruction: (a) Snapshot held after takeSnapshot chose its label while the next operation is committed, then restart "
+                "(restore + replay); (b) a follower's Apply held while a snapshot covering that operation is installed; no operation "
+                "may be in a state machine twice (defects D8, D9)")
+
+
+def cosim_plan(exclude=(), handlers=None, d3=False, grpc=False, fsmrace=False):
     def drivers(ctx):
         d = []
+        if fsmrace:
+            d.append({"name": "fsmrace", "cmd": [os.path.join(HB, "fsmrace")]})
         if grpc:
             # three real nodes over the library's gRPC transport: a late node needs a snapshot of 84 B, 100 KiB, 5 MiB (defect D14)
             d.append({"name": "grpcsnap", "cmd": [os.path.join(HB, "grpcsnap")]})
@@ -103,8 +111,8 @@ def cosim_plan(exclude=(), handlers=None, d3=False, grpc=False):
         if handlers:
             d += handler_driver(handlers)(ctx)
         return d + cosim_drivers(exclude)(ctx)
-    return {"harness": ["cosim"] + (["handlerdiff"] if handlers else []) + (["d3witness"] if d3 else []) + (["grpcsnap"] if grpc else []), "drivers": drivers,
-            "rule": COSIM_RULE + (HANDLER_RULE if handlers else "") + (GRPC_RULE if grpc else ""), "assumptions": COSIM_ASSUME,
+    return {"harness": ["cosim"] + (["handlerdiff"] if handlers else []) + (["d3witness"] if d3 else []) + (["grpcsnap"] if grpc else []) + (["fsmrace"] if fsmrace else []), "drivers": drivers,
+            "rule": COSIM_RULE + (HANDLER_RULE if handlers else "") + (GRPC_RULE if grpc else "") + (FSMRACE_RULE if fsmrace else ""), "assumptions": COSIM_ASSUME,
             "nontrivial": (lambda l: l.startswith("HSEQ")) if handlers else (lambda l: False)}
 
 
@@ -150,7 +158,7 @@ PLANS = {
     },
     "C01": cosim_plan(_SAFETY_EXCL), "C02": cosim_plan(_SAFETY_EXCL, None, True), "C03": cosim_plan(_SAFETY_EXCL),
     "C04": cosim_plan(_SAFETY_EXCL), "C05": cosim_plan(), "C06": cosim_plan(_SAFETY_EXCL, "ae"), "C07": cosim_plan(_SAFETY_EXCL),
-    "C08": cosim_plan(_SAFETY_EXCL, "rv"), "C09": cosim_plan(), "C10": cosim_plan(_SAFETY_EXCL), "C11": cosim_plan(_SAFETY_EXCL, "is"),
+    "C08": cosim_plan(_SAFETY_EXCL, "rv"), "C09": cosim_plan(), "C10": cosim_plan(_SAFETY_EXCL, None, False, False, True), "C11": cosim_plan(_SAFETY_EXCL, "is"),
     "C14": cosim_plan(_SAFETY_EXCL), "C15": cosim_plan((), None, False, True), "C16": cosim_plan(), "C17": cosim_plan(),
     "C18": {
         "harness": ["apidiff", "cosim"],
